@@ -255,6 +255,45 @@ def server_scenario(r, length=None, small=False):
     return dict(cfg=tuple(cfg), insts=insts, draws=draws, events=events, end=end, rev=r.random() < 0.3, fuel=20000)
 
 
+def pair_in_one_message(r):
+    """Subscribe and StopSubscribe for the SAME subscription in ONE message (both orders, also Subscribe - Stop - Subscribe), or
+    in two datagrams of one instant - with the subscription live before or not, and placed on, one tick around and away
+    from the deadline of the live subscription (a stop + re-add exactly when the old TTL timer is due)."""
+    from . import conv
+    cfg = list(timings(r))
+    cfg[6] = T
+    cfg[11] = r.choice([0, 5 * MS])
+    svc = SERVICES[0]
+    who = r.choice([1, 2])
+    peers = {1: Peer(1), 2: Peer(2)}
+    events = [(0, (1, [17, 1])), (0, (1, [0]))]
+    t0 = T // 2 + r.choice([0, T // 4])
+    ttl1 = r.choice([1, 2, 3, 0xFFFFFF])
+    eg = r.choice([5, 5, 6])
+    live = r.random() < 0.7
+    if live:
+        events.append((t0, (0, who, False, peers[who].datagram([sub_entry(r, svc, eg, ttl1, 0, 1, ep_n=who)], False))))
+    if live and ttl1 != 0xFFFFFF and r.random() < 0.7:
+        tp = t0 + ttl1 * T + r.choice([0, 0, 0, -1, 1])
+    else:
+        tp = t0 + r.choice([1, T // 8, T // 2, T + T // 2])
+    ttl2 = r.choice([1, 3, 0xFFFFFF])
+    s2 = sub_entry(r, svc, eg, ttl2, 0, 1, ep_n=who)
+    st = sub_entry(r, svc, eg, 0, 0, 1, ep_n=who)
+    order = r.choice(["stop-sub", "stop-sub", "sub-stop", "sub-stop", "sub-stop-sub", "stop-sub-stop"])
+    es = {"stop-sub": [st, s2], "sub-stop": [s2, st], "sub-stop-sub": [s2, st, s2], "stop-sub-stop": [st, s2, st]}[order]
+    if r.random() < 0.25:
+        other = 2 if who == 1 else 1
+        es = es + [sub_entry(r, svc, 6 if eg == 5 else 5, 3, 0, 1, ep_n=who)]
+    if r.random() < 0.75:
+        events.append((tp, (0, who, False, peers[who].datagram(es, False))))
+    else:
+        for e in es:
+            events.append((tp, (0, who, False, peers[who].datagram([e], False))))
+    end = tp + (ttl2 if ttl2 != 0xFFFFFF else 2) * T + 2 * T
+    return dict(cfg=tuple(cfg), insts=[(1, conv.s_service(svc), [])], draws=[0] * 8, events=events, end=end, rev=r.random() < 0.3, fuel=20000)
+
+
 def defer_some_api(r, events, p=0.15):
     """An application call that is the only call of its instant is made, now and then, one to three loop iterations INTO the
     instant (ApiSoon, codes 22-24): behind whatever the datagrams of that instant trigger."""
